@@ -396,6 +396,16 @@ def write_cfg(name: str, consts: dict, invariants) -> str:
     return str(f)
 
 
+def enumerate_grammars(rep: C.Report, family: str, sample: int) -> list[dict]:
+    """The GAST grammars of a family (TLC-enumerated, seeded sample), without replay."""
+    cfgf = write_cfg(f"{rep.prop}_enum_{family}_{sample}", {"Family": family, "MaxLen": 0, "Starts": "zero", "Sample": sample}, ["Emit"])
+    out = []
+    st = C.run_tlc("Families", cfgf, on_line=lambda ln: out.append(C.decode_printt(ln)["g"]), workers=2, extra=["-seed", str(C.SEED + 1)], tag=f"{rep.prop}_enum_{family}", xss="512m")
+    C.require_tlc_ok(st, f"Families enumerate {family}")
+    rep.add_tlc(st, f"Families[{family}] grammars for sentence rendering")
+    return out
+
+
 def run_family(rep: C.Report, fam: dict, judge: str, modes, build_modes=None, nproc=None, classify=None, module="Families", batch=8):
     """fam: {"Family","MaxLen","Starts","Sample", "workers", "invariants"}"""
     build_modes = build_modes or modes
